@@ -98,6 +98,15 @@ def _graph_case(draw, ctx):
                                max_insts=2, unconnected_pins=draw(st.booleans()),
                                const_types=("0", "1", "x"), io_outputs=True,
                                outputs=draw(st.sampled_from(["sinks+random", "random"]))))
+    if spec["bbtypes"] and draw(st.integers(0, 4)) == 0:
+        # a pin whose own name contains a dot: <inst>.<a.b> still belongs to instance <inst>
+        for bt in spec["bbtypes"]:
+            for lst in (bt[1], bt[2]):
+                for i, pn in enumerate(lst):
+                    if pn in ("d", "q"):
+                        lst[i] = "bus." + pn
+        for inst in spec["insts"]:
+            inst[2] = {("bus." + k if k in ("d", "q") else k): v for k, v in inst[2].items()}
     names = [x[0] for x in spec["nodes"]]
     pins = []
     for iname, ti, conns in spec["insts"]:
